@@ -18,8 +18,9 @@ pub(crate) fn assert_from_data_fits(what: &str, data: &[u8], n: usize, polys: Op
         "{what}::from_data: buffer of {} bytes too small for the declared shape (n={n})",
         data.len()
     );
+    // an empty buffer (empty shape) has a dangling pointer that is never dereferenced
     assert!(
-        align == 0 || (data.as_ptr() as usize).is_multiple_of(align),
+        align == 0 || data.is_empty() || (data.as_ptr() as usize).is_multiple_of(align),
         "{what}::from_data: buffer not aligned to {align} bytes"
     );
 }
